@@ -118,9 +118,34 @@ def _executable(ctx, prog):
                     arm = "Some" if lab == 1 else "None"
             if arm:
                 tab.setdefault(arm, set()).add(str(p["ret"]))
-        want_some = "Result::Ok{0: (SolanaSysvar::get()?.unix_timestamp Ge i64::saturating_add_unsigned(InstructionHeader::approved_at(self)@Some.0, (delay as u64)))}"
+        def _after_delay(rs):
+            # Ok(now >= approved_at (+sat) delay), written either way round; delay widened by `as u64` or u64::from
+            if len(rs) != 1:
+                return False
+            e = rs[0]
+            pl = e.a[1][0][1] if e.k == "agg" and e.a[0].endswith("Ok") and e.a[1] else None
+            cm = A.as_cmp(pl) if pl is not None else None
+            if not cm:
+                return False
+            op, a, b = cm
+            if op in ("<=", "<"):
+                op, a, b = A.FLIP[op], b, a
+            if op != ">=" or str(a) != "SolanaSysvar::get()?.unix_timestamp":
+                return False
+            return b.k == "call" and b.a[0] == "i64::saturating_add_unsigned" and str(b.a[1][0]) == "InstructionHeader::approved_at(self)@Some.0" \
+                and str(b.a[1][1]) in ("(delay as u64)", "delay")
+        tab_e = {}
+        for p in A.decision_table(f):
+            if not A.feasible(p) or p["diverges"] or p["ret"] is None:
+                continue
+            arm = None
+            for c, lab, _ in p["conds"]:
+                if c.k == "discr" and str(c.a[0]) == "InstructionHeader::approved_at(self)":
+                    arm = "Some" if lab == 1 else "None"
+            if arm and str(p["ret"]) not in [str(x) for x in tab_e.get(arm, [])]:
+                tab_e.setdefault(arm, []).append(p["ret"])
         ctx.ob("executable:not-approved", tab.get("None") == {"Result::Ok{0: false}"}, "approved_at() == None -> %s" % sorted(tab.get("None", [])), where=f.where())
-        ctx.ob("executable:after-delay", tab.get("Some") == {want_some}, "approved_at() == Some(t) -> %s" % sorted(tab.get("Some", [])), where=f.where())
+        ctx.ob("executable:after-delay", _after_delay(tab_e.get("Some", [])), "approved_at() == Some(t) -> Ok(now >= t +sat delay): %s" % sorted(tab.get("Some", [])), where=f.where())
     g = ctx.fn(HD + "approved_at")
     if g:
         ex = [str(e) for _, _, e in g.exits()]
@@ -359,11 +384,11 @@ def _faithful(ctx, prog):
             "<anchor_lang::prelude::AccountMeta as std::convert::From<&gmsol_utils::instruction::InstructionAccount>>::from" in conv.a[-1].get("ty", "")
         ctx.ob("faithful:rebuild", ok and ok_conv, "to_instruction = Instruction{program_id(), accounts().map(AccountMeta::from).collect(), data().to_vec()}", where=t.where())
         cl = prog.closures_of(t)
-        writers = [(c, w) for c in cl for w in A.field_writes(c, r"is_signer$|is_writable$|pubkey$")]
-        filt = [str(e) for c in cl for _, _, e in c.exits() if "PartialEq::eq" in str(e)]
+        writers = [w for c in cl for w in H.closure_writes(prog, t, c, r"is_signer$|is_writable$|pubkey$")]
+        filt = [v for c in cl for v in H.closure_view(prog, t, c) if "PartialEq::eq" in v or " Eq " in v]
         fe = [c for c in t.calls if c.short == "Iterator::for_each"]
-        ok = len(writers) == 1 and writers[0][1]["path"] == "a.is_signer" and str(writers[0][1]["rv"]) == "true" and \
-            filt == ["PartialEq::eq(a.pubkey, ^executor_wallet)"] and len(fe) == 1 and \
+        ok = writers == [("$1.is_signer", "true")] and \
+            filt in (["PartialEq::eq($1.pubkey, <InstructionAccess::wallet(self)?>)"], ["PartialEq::eq(<InstructionAccess::wallet(self)?>, $1.pubkey)"]) and len(fe) == 1 and \
             A.has_bool_fact(A.cmp_facts(t, fe[0].bb), True, r"^mark_executor_wallet_as_signer$") and \
             "Iterator::filter(" in str(fe[0].arg_expr(0))
         # no store to the account metas in the body itself
@@ -388,9 +413,9 @@ def _faithful(ctx, prog):
     if g:
         ex = [str(e) for _, _, e in g.exits()]
         cl = prog.closures_of(g)
-        cex = [str(e) for c in cl for _, _, e in c.exits()]
+        cex = [v for c in cl for v in H.closure_view(prog, g, c)]
         ok = len(ex) == 1 and ex[0].startswith("Iterator::map(Range{start: 0, end: InstructionAccess::num_accounts(self)}, closure<") and \
-            len(cex) == 1 and re.match(r"^Option::(expect|unwrap)\(dynamic_access::get\(\^self\.accounts, idx\)", cex[0]) is not None
+            len(cex) == 1 and re.match(r"^Option::(expect|unwrap)\(dynamic_access::get\(<self>\.accounts, \$1\)", cex[0]) is not None
         ctx.ob("faithful:access:accounts", ok, "InstructionRef::accounts() = (0..num_accounts()).map(|idx| get(self.accounts, idx))", where=g.where())
     ctx.floor("faithful-accessors", n, 3)
     callers = sorted(set(c.fn.short for c in prog.callers_of("gmsol_utils::instruction::InstructionAccess::to_instruction") if c.fn.crate == "gmsol_timelock"))
